@@ -203,6 +203,156 @@ func zzTxHistory(cfg zzTxCfg, seed int64, nTx, maxOps, keys int) (props, detail,
 	return "", "", strings.Join(tr, " ")
 }
 
+// zzTxGrowth grows a store by one key per committed transaction (scattered order, so that leaves and inner nodes split
+// in the middle) and, every few commits, removes a key; after every commit a fresh reader scans the whole store.
+// Every node is touched for the first time in its transaction - the situation in which a node that was changed but not
+// handed to the repository goes unnoticed inside the writing transaction.
+func zzTxGrowth(cfg zzTxCfg, nKeys int) (props, detail string) {
+	defer func() {
+		if r := recover(); r != nil {
+			props, detail = "C17,C05,C06", fmt.Sprintf("panic: %v", r)
+		}
+	}()
+	ctx := context.Background()
+	folder, err := os.MkdirTemp("", "zzgrow")
+	if err != nil {
+		return "C01", "tmp dir: " + err.Error()
+	}
+	defer os.RemoveAll(folder)
+	l2 := cache.NewL2InMemoryCache()
+	so := cfg.so
+	so.Name = "zzg"
+	committed := map[int]bool{}
+	for i := 0; i < nKeys; i++ {
+		k := (i * 37) % 101 // scattered, distinct for i < 101
+		t, err := zzTxBegin(ctx, folder, l2, sop.ForWriting)
+		if err != nil {
+			return "C01", "begin: " + err.Error()
+		}
+		var b3 btree.BtreeInterface[int, string]
+		if i == 0 {
+			b3, err = NewBtree[int, string](ctx, so, t, nil)
+		} else {
+			b3, err = OpenBtree[int, string](ctx, "zzg", t, nil)
+		}
+		if err != nil {
+			return "C01,C12", fmt.Sprintf("growth tx %d: opening the store: %v", i, err)
+		}
+		if ok, err := b3.Add(ctx, k, fmt.Sprintf("g%d", k)); err != nil || !ok {
+			return "C05,C17", fmt.Sprintf("growth tx %d: Add(%d) = %v, %v", i, k, ok, err)
+		}
+		if ok, err := b3.Add(ctx, k, "again"); err != nil || ok {
+			return "C05", fmt.Sprintf("growth tx %d: a second Add(%d) on a unique store = %v, %v", i, k, ok, err)
+		}
+		committed[k] = true
+		if i%7 == 6 {
+			rk := ((i - 3) * 37) % 101
+			if ok, err := b3.Remove(ctx, rk); err != nil || !ok {
+				return "C17,C19", fmt.Sprintf("growth tx %d: Remove(%d) = %v, %v", i, rk, ok, err)
+			}
+			delete(committed, rk)
+		}
+		if err := t.Commit(ctx); err != nil {
+			return "C01,C07", fmt.Sprintf("growth tx %d: Commit: %v", i, err)
+		}
+		rt, err := zzTxBegin(ctx, folder, l2, sop.ForReading)
+		if err != nil {
+			return "C01", "reader begin: " + err.Error()
+		}
+		rb, err := OpenBtree[int, string](ctx, "zzg", rt, nil)
+		if err != nil {
+			return "C01", fmt.Sprintf("after growth tx %d: reader cannot open the store: %v", i, err)
+		}
+		seen := map[int]bool{}
+		prev, n := -1, 0
+		if ok, err := rb.First(ctx); err != nil {
+			return "C17", fmt.Sprintf("after growth tx %d: First: %v", i, err)
+		} else if ok {
+			for {
+				key := rb.GetCurrentKey().Key
+				if seen[key] {
+					return "C05,C17", fmt.Sprintf("after growth tx %d: the scan delivers key %d twice", i, key)
+				}
+				if key <= prev {
+					return "C17", fmt.Sprintf("after growth tx %d: the scan is out of order at key %d (after %d)", i, key, prev)
+				}
+				if !committed[key] {
+					return "C17,C19", fmt.Sprintf("after growth tx %d: the scan delivers key %d which is not in the store", i, key)
+				}
+				seen[key] = true
+				prev = key
+				n++
+				if n > nKeys+2 {
+					return "C17", fmt.Sprintf("after growth tx %d: the scan does not end", i)
+				}
+				ok, err := rb.Next(ctx)
+				if err != nil {
+					return "C17", fmt.Sprintf("after growth tx %d: Next: %v", i, err)
+				}
+				if !ok {
+					break
+				}
+			}
+		}
+		if n != len(committed) {
+			return "C17,C01,C19", fmt.Sprintf("after growth tx %d: the scan delivers %d keys, %d were committed", i, n, len(committed))
+		}
+		if int(rb.Count()) != len(committed) {
+			return "C06", fmt.Sprintf("after growth tx %d: Count() = %d, the store holds %d items", i, rb.Count(), len(committed))
+		}
+		rt.Commit(ctx)
+	}
+	return "", ""
+}
+
+// zzCanarySlot2: unique store with SlotLength 2. tx0: Add 3, Add 2, commit. tx1: Update 3, commit. tx2: Add 3 (refused:
+// exists), Add 0 (the full root splits), Remove 0 must find the key it just added.
+func zzCanarySlot2() (props, detail string) {
+	defer func() {
+		if r := recover(); r != nil {
+			props, detail = "C17", fmt.Sprintf("panic: %v", r)
+		}
+	}()
+	ctx := context.Background()
+	folder, err := os.MkdirTemp("", "zzcanary")
+	if err != nil {
+		return "", ""
+	}
+	defer os.RemoveAll(folder)
+	l2 := cache.NewL2InMemoryCache()
+	t0, err := zzTxBegin(ctx, folder, l2, sop.ForWriting)
+	if err != nil {
+		return "C17", err.Error()
+	}
+	b3, err := NewBtree[int, string](ctx, sop.StoreOptions{Name: "zzc", SlotLength: 2, IsUnique: true, IsValueDataInNodeSegment: true}, t0, nil)
+	if err != nil {
+		return "C17", err.Error()
+	}
+	b3.Add(ctx, 3, "a")
+	b3.Add(ctx, 2, "b")
+	if err := t0.Commit(ctx); err != nil {
+		return "C17", err.Error()
+	}
+	t1, _ := zzTxBegin(ctx, folder, l2, sop.ForWriting)
+	b3, _ = OpenBtree[int, string](ctx, "zzc", t1, nil)
+	b3.Update(ctx, 3, "u")
+	if err := t1.Commit(ctx); err != nil {
+		return "C17", err.Error()
+	}
+	t2, _ := zzTxBegin(ctx, folder, l2, sop.ForWriting)
+	b3, _ = OpenBtree[int, string](ctx, "zzc", t2, nil)
+	if ok, _ := b3.Add(ctx, 3, "dup"); ok {
+		return "C05", "Add of an existing key into a unique store succeeded"
+	}
+	if ok, err := b3.Add(ctx, 0, "c"); !ok || err != nil {
+		return "C17", fmt.Sprintf("Add(0) = %v, %v", ok, err)
+	}
+	if ok, err := b3.Remove(ctx, 0); !ok || err != nil {
+		return "C17,C19", fmt.Sprintf("Remove(0) = %v, %v right after Add(0) = true in the same transaction", ok, err)
+	}
+	return "", ""
+}
+
 func TestZZBoundedTxnContent(t *testing.T) {
 	thorough := os.Getenv("GOVC_TIER") == "thorough"
 	nHist, nTx, maxOps, keys := 40, 5, 4, 6
@@ -229,5 +379,28 @@ func TestZZBoundedTxnContent(t *testing.T) {
 			}
 		}
 		fmt.Printf("BOUNDED-SUMMARY harness=txn-content part=%s evaluated=%d distinct=%d exhaustive=false bound=\"%d fixed pseudo-random histories of %d transactions with 1..%d operations (Add/Update/Remove) over %d keys, each committed (4 in 5) or rolled back; slot length 4\"\n", c.name, evaluated, len(distinct), nHist, nTx, maxOps, keys)
+	}
+	// canary (known finding, listed in /verif/known_findings.json by this id): slot length 2, a refused duplicate Add
+	// followed by an Add that splits the root, then Remove of the key just added
+	{
+		props, detail := zzCanarySlot2()
+		if props == "" {
+			fmt.Printf("BOUNDED-PASS id=txn-content/canary/slot2-refused-add-then-split\n")
+		} else {
+			fmt.Printf("BOUNDED-FAIL id=txn-content/canary/slot2-refused-add-then-split props=%s :: %s\n", props, detail)
+		}
+		fmt.Printf("BOUNDED-SUMMARY harness=txn-content part=canary evaluated=1 distinct=1 exhaustive=false bound=\"named canary history\"\n")
+	}
+	// growth: one key per committed transaction until the tree is three levels deep (inner nodes split too)
+	nGrow := 70
+	if thorough {
+		nGrow = 100
+	}
+	for _, c := range []zzTxCfg{cfgs[0], cfgs[1]} {
+		props, detail := zzTxGrowth(c, nGrow)
+		if props != "" {
+			fmt.Printf("BOUNDED-FAIL id=txn-content/growth/%s props=%s :: %s\n", c.name, props, detail)
+		}
+		fmt.Printf("BOUNDED-SUMMARY harness=txn-content part=growth/%s evaluated=%d distinct=%d exhaustive=false bound=\"one history of %d single-insert transactions in scattered key order (every 7th also removes a key), slot length 4, whole store scanned by a fresh reader after every commit\"\n", c.name, nGrow, nGrow, nGrow)
 	}
 }
